@@ -295,6 +295,30 @@ Write(s0, n, v) ==
             /\ UNCHANGED <<headN, chain, snapIdx, size, open, mode, rebuilding,
                            checkpoint, punch, preload, lm, stale, cleaner, usnap>>
 
+\* A driver loop of `count` aligned whole-block writes at blocks b0, b0+step, ... recorded as
+\* ONE step (files fragmented into thousands of extents without thousands of records).  The
+\* blocks are distinct and fully covered, so the single writes do not interact: each behaves
+\* as Write(b * SPB, SPB, v).
+WriteStride(b0, step, count, v) ==
+    /\ Called("WriteStride", [b0 |-> b0, step |-> step, count |-> count, v |-> v])
+    /\ count > 0 /\ step > 0 /\ b0 >= 0 /\ b0 + (count - 1) * step < size
+    /\ IF ~open \/ (~WriteOK /\ "writeInAnyMode" \notin Bug) THEN Refuse
+       ELSE
+        LET T    == Len(chain)
+            B    == {b0 + i * step : i \in 0..(count - 1)}
+            full == [k \in 1..SPB |-> v]
+        IN  /\ disks' = [disks EXCEPT ![chain[T]].data =
+                            [b \in Blocks |-> IF b \in B THEN full ELSE @[b]]]
+            /\ loc' = [b \in Blocks |-> IF b \in B THEN T ELSE loc[b]]
+            /\ holeQ' = holeQ \cup UNION {WriteHoles(b * SPB, SPB) : b \in B}
+            /\ rev' = IF mode = "RW" THEN rev + count ELSE rev
+            /\ dirty' = TRUE
+            /\ ref' = [b \in Blocks |-> IF b \in B THEN full ELSE ref[b]]
+            /\ res' = IF WriteOK THEN "ok" ELSE "refused"
+            /\ out' = <<>>
+            /\ UNCHANGED <<headN, chain, snapIdx, size, open, mode, rebuilding,
+                           checkpoint, punch, preload, lm, stale, cleaner, usnap>>
+
 \* Server.ReadAt: served in any mode while open; the lookups are cached
 Read(s0, n) ==
     /\ Called("Read", [s0 |-> s0, n |-> n])
